@@ -5,6 +5,33 @@ import importlib
 from vf.ref.interp import Obj
 
 
+import collections.abc as _abc
+
+
+class _View(_abc.Sequence):
+    """Read-only window on somebody else's list."""
+
+    def __init__(self, backing):
+        self._backing = backing
+
+    def __getitem__(self, i):
+        return self._backing[i]
+
+    def __len__(self):
+        return len(self._backing)
+
+
+def _truth(v):
+    return str(v).strip().lower() in ("true", "1")
+
+
+def _int(v):
+    try:
+        return int(str(v).strip())
+    except ValueError:
+        return 0
+
+
 class Bridge:
     def __init__(self, interp, pkg="eolib.protocol._generated"):
         self.interp = interp
@@ -80,6 +107,12 @@ class Bridge:
                 return (x for x in items)
             if array_form == 3 and t.kind == "int" and all(isinstance(x, int) and 0 <= x < 256 for x in items):
                 items = bytearray(items)  # a mutable Iterable[int] that is not a list
+            if array_form == 4:
+                # a read-only view (a Sequence that is neither a tuple nor mutable itself) over a list its owner
+                # goes on changing
+                if handles is not None:
+                    handles.append(items)
+                return _View(items)
             if handles is not None:
                 handles.append(items)
             return items
@@ -89,8 +122,16 @@ class Bridge:
         C = self.real_class(obj.cls)
         kwargs = {}
         for name, ins in self.params(obj.cls):
+            if ins.kind == "field" and ins.value is not None and self.decoy_hardcoded:
+                # a named field with a hard-coded value is still a constructor parameter; whatever the caller
+                # passes there, the object carries (and writes) the value of the specification
+                t = self.interp.resolve(ins.type)
+                kwargs[name] = "zz" if t.kind in ("str", "estr") else (not _truth(ins.value)) if t.kind == "bool" else (_int(ins.value) + 1) % 250
+                continue
             kwargs[name] = self.to_real(obj.fields.get(name), ins, array_form, handles)
         return C(**kwargs)
+
+    decoy_hardcoded = True
 
     def walk(self, obj, real, fn, where=""):
         """fn(real_instance, cls_path, param_names, where) for the instance and every nested generated instance."""
